@@ -109,8 +109,9 @@ fn consume(w: &W, id: u32, mut it: Box<dyn Iterator<Item = (St, Act)> + Send>, e
         c.wait_at_least(n, 30);
     }
     if let Some(c) = early {
-        // hazard: wait until something was notified, then drop without reading
-        c.wait_at_least(1, 30);
+        // hazard: wait (briefly) until something was notified, then drop without reading; if nothing
+        // notifies, the drop is harmless and the scenario just ends
+        c.wait_at_least(1, 1);
         w.ctx.ev(K::ItDropInv, 0, 0, id, 0, 0, 1);
         drop(it);
         w.ctx.ev(K::ItDropRet, 0, 0, id, 0, 0, 1);
